@@ -373,7 +373,7 @@ class C07(Monitor):
             ]
         # thorough: every stratum of the grammar and the families, without the stdlib
         # corpus and the triple/depth-3 strata (their documents add volume, not shapes)
-        return [x for x in progs_strata(self.tier, False, None) if x[0] not in ("C", "Pd3", "Pdn")]
+        return [x for x in progs_strata(self.tier, False, None) if x[0] not in ("C", "Pd2", "Pd3", "Pdn")]
 
     def predicted(self):
         n = consts.size(self.tier) * len(self.const_positions()) + len(STRINGS) * len(STRING_POSITIONS) + 4
